@@ -360,14 +360,32 @@ func streamLex(o *Out, r *rand.Rand, n int, thorough bool) {
 	if len(valid) < 2 {
 		npairs = 0
 	}
+	// pairs run first on every run: a text with a non-empty block followed by a text with an EMPTY block of the same shape
+	// (an empty block is empty, not whatever block was reduced before it at that depth), and single texts with both
+	fixedPairs := [][2]string{
+		{"x = 1\nif c { y = 2 }", "if d { }"}, {"if a { b = 1 }", "if c { } else { }"}, {"func f() { z = 1 }", "g = func() { }"}, {"for i in x { y }", "for j in z { }"},
+		{"if false { a = 1 } else { }", "h()"}, {"try { a } catch { b }", "try { } catch { }"}, {"switch x {\ncase 1:\na\n}", "switch y {\n}"}, {"module m { a = 1 }", "module n { }"},
+		{"for { a }", "for { }"}, {"for i = 0; i < 1; i++ { a }", "for i = 0; i < 1; i++ { }"}, {"f = func(a) { return a }", "g = func(a) {}"}, {"if a { b } else if c { d } else { e }", "if a { } else if c { } else { }"},
+		{"x = 1\ny = 2\nif a { b }", "z = 3\nw = 4\nif c {}"}, {"go func() { a }()", "go func() { }()"}, {"defer func() { a }()", "defer func() {}()"},
+	}
+	if npairs > 0 {
+		npairs += len(fixedPairs)
+	}
 	for i := 0; i < npairs; i++ {
 		a, b := valid[r.Intn(len(valid))], valid[r.Intn(len(valid))]
+		if i < len(fixedPairs) {
+			a, b = fixedPairs[i][0], fixedPairs[i][1]
+		}
 		if len(a)+len(b) > 20000 {
 			continue
 		}
 		// texts made of separators only, and texts that start with separators
 		seps := []string{";", ";;", "\n;", "# c\n;", " ; ", "", "\n\n", ";\n;"}
-		switch r.Intn(8) {
+		sw := r.Intn(8)
+		if i < len(fixedPairs) {
+			sw = 7
+		}
+		switch sw {
 		case 0:
 			a = seps[r.Intn(len(seps))]
 		case 1:
